@@ -149,15 +149,18 @@ InState == stack # <<>> /\ ~acted
 (***************************************************************************)
 (* public calls made between iterations                                    *)
 (***************************************************************************)
+\* engage(): between iterations, or from inside a (non-default) state function - there it only matters with
+\* force=True, because the request flag is cleared again when execute() ends
 Engage(init, force) ==
-    /\ AtTop
+    /\ (AtTop \/ InState)
     /\ LET r1  == [Rec EXCEPT !.se = TRUE]
            tgt == IF init = None THEN sh.first ELSE init
            go  == force \/ cur = None \/ cur = sh.default
            r2  == IF go THEN [RNextState(r1, tgt) EXCEPT !.pure = FALSE] ELSE r1
        IN Commit(r2)
+    /\ acted' = (stack # <<>>)
     /\ post' = FALSE /\ dflag' = FALSE
-    /\ UNCHANGED <<sh, now, dur, stack, acted, req, ncalls, nsn, inAuto, latchSet>>
+    /\ UNCHANGED <<sh, now, dur, stack, req, ncalls, nsn, inAuto, latchSet>>
 
 UserDone ==        \* done() or on_disable(), between iterations or from inside a state function
     /\ (AtTop \/ InState)
@@ -261,7 +264,8 @@ EvNext(ev) ==
 \* the enabling condition of EvNext(ev), spelled out (the acceptor uses it instead of ENABLED,
 \* MC_MagicSM checks that the two agree)
 EvEnabled(ev) ==
-    CASE ev.e \in {"engage", "tick", "execute", "disable"} -> AtTop
+    CASE ev.e \in {"tick", "execute", "disable"} -> AtTop
+      [] ev.e = "engage"  -> AtTop \/ InState
       [] ev.e = "setdur"  -> AtTop /\ ev.s \in States /\ Timed(ev.s)
       [] ev.e = "done"    -> AtTop \/ InState
       [] ev.e \in {"ns", "nsnow"} -> InState /\ ev.s \in States
